@@ -16,6 +16,12 @@ module N =
   | N0 -> N0
   | Npos p -> Npos (Coq_xO p)
 
+  (** val pred : coq_N -> coq_N **)
+
+  let pred = function
+  | N0 -> N0
+  | Npos p -> Pos.pred_N p
+
   (** val add : coq_N -> coq_N -> coq_N **)
 
   let add n m =
@@ -148,11 +154,24 @@ module N =
                  | N0 -> N0
                  | Npos q -> Pos.coq_land p q)
 
+  (** val shiftl : coq_N -> coq_N -> coq_N **)
+
+  let shiftl a n =
+    match a with
+    | N0 -> N0
+    | Npos a0 -> Npos (Pos.shiftl a0 n)
+
   (** val to_nat : coq_N -> nat **)
 
   let to_nat = function
   | N0 -> O
   | Npos p -> Pos.to_nat p
+
+  (** val of_nat : nat -> coq_N **)
+
+  let of_nat = function
+  | O -> N0
+  | S n' -> Npos (Pos.of_succ_nat n')
 
   (** val eq_dec : coq_N -> coq_N -> bool **)
 
@@ -164,4 +183,9 @@ module N =
     | Npos p -> (match m with
                  | N0 -> false
                  | Npos p0 -> Pos.eq_dec p p0)
+
+  (** val ones : coq_N -> coq_N **)
+
+  let ones n =
+    pred (shiftl (Npos Coq_xH) n)
  end
